@@ -50,6 +50,9 @@ type Contract struct {
 	blockExt   []string // external blocking calls the function is allowed to make (with their wake-up mechanism)
 	blocksCancellable bool
 	blocksNever       bool
+	tokens            []string // local channel variables whose messages are token-tracked (all senders known)
+	sendsOnce         []string // (closure contracts) channels the goroutine sends on exactly once
+	assumed           string // non-empty: the body is not verified against this contract (reason); reported as an assumption
 }
 
 func (c *Contract) allocatesRegion(r string) bool {
@@ -148,6 +151,28 @@ func loadWorld(repo string) (*World, error) {
 	prog.Build()
 	w.prog = prog
 	w.allFuncs = ssautil.AllFunctions(prog)
+	// AllFunctions follows references only: declared but (currently) uncalled unexported methods of module types are added
+	// so that a contract keeps binding to its function when the last call site disappears.
+	for _, sp := range prog.AllPackages() {
+		if !strings.HasPrefix(sp.Pkg.Path(), modulePath) {
+			continue
+		}
+		for _, m := range sp.Members {
+			tn, ok := m.(*ssa.Type)
+			if !ok {
+				continue
+			}
+			named, ok := tn.Type().(*types.Named)
+			if !ok || named.TypeParams().Len() > 0 {
+				continue
+			}
+			for i := 0; i < named.NumMethods(); i++ {
+				if fn := prog.FuncValue(named.Method(i)); fn != nil {
+					w.allFuncs[fn] = true
+				}
+			}
+		}
+	}
 	registerExterns(w)
 	for _, f := range extraExterns {
 		f(w)
@@ -327,7 +352,7 @@ func (w *World) uniqueImpl(it types.Type, m *types.Func) *ssa.Function {
 func (w *World) scanGlobals() {
 	nextErr := 900000001
 	for _, sp := range w.prog.AllPackages() {
-		if !strings.HasPrefix(sp.Pkg.Path(), modulePath) {
+		if !strings.HasPrefix(sp.Pkg.Path(), modulePath) && sp.Pkg.Path() != "io" && sp.Pkg.Path() != "bufio" {
 			continue
 		}
 		init := sp.Func("init")
@@ -577,6 +602,11 @@ func (w *World) loadContracts(file, pkgPath string) error {
 			}
 		case "atomic":
 			cur.atomic = rest
+		case "assumed":
+			cur.assumed = rest
+			if cur.assumed == "" {
+				cur.assumed = "no reason given"
+			}
 		case "blocks":
 			// blocks cancellable [external <callee>: <wake-up mechanism>; ...]
 			cur.blocks = rest
@@ -589,6 +619,24 @@ func (w *World) loadContracts(file, pkgPath string) error {
 					}
 				}
 			}
+		case "tokens":
+			// tokens <local channel variable>[, ...]: every producer of messages on the channel is known to the verifier
+			for _, x := range strings.Split(rest, ",") {
+				if x = strings.TrimSpace(x); x != "" {
+					cur.tokens = append(cur.tokens, x)
+				}
+			}
+		case "sends":
+			// sends <channel variable> once: the (goroutine) function sends exactly one message on the channel
+			fs := strings.Fields(rest)
+			if len(fs) != 2 || fs[1] != "once" {
+				return fmt.Errorf("%s:%d: bad sends clause (want: sends <chan> once)", file, lineNo)
+			}
+			cur.sendsOnce = append(cur.sendsOnce, fs[0])
+			if err := flush(); err != nil {
+				return err
+			}
+			pend = &pending{kind: "ensures", label: "sends-once-" + fs[0], text: "sentlen(" + fs[0] + ") == old(sentlen(" + fs[0] + ")) + 1", line: lineNo}
 		case "selects":
 			for _, x := range strings.Split(rest, ",") {
 				if x = strings.TrimSpace(x); x != "" {
